@@ -133,14 +133,103 @@ def eval_case(item):
     return None
 
 
+UNICODE_NAMES = ["e\u0301", "\u00e9", "A\u030a", "\u2126", "\u1112\u1161\u11ab", "a\u00a0", "\u00a0a", "\ufb01", "\u0130", "\u212a", " a", "a ", "a\u200b"]
+
+
+def cli_case(name):
+    """The CLI hands the path to the library unchanged: `nima set <path> 1` prints what set_value gives for that very path."""
+    import contextlib
+    import io
+    import sys
+
+    from nix_manipulator import parse
+    from nix_manipulator.cli.main import main
+    from nix_manipulator.cli.manipulations import set_value
+
+    bad = []
+    for doc, text in (("plain", DOCS["plain"]), ("holds-the-name", "{\n  " + segment(name) + " = 0;\n  k = 0;\n}\n")):
+        npath = segment(name)
+        try:
+            want = set_value(parse(text), npath, "1")
+            want = (0, want if want.endswith("\n") else want + "\n")
+        except Exception:
+            want = ("nonzero", "")
+        old_stdin = sys.stdin
+        sys.stdin = io.StringIO(text)
+        out = io.StringIO()
+        try:
+            with contextlib.redirect_stdout(out), contextlib.redirect_stderr(io.StringIO()):
+                rc = main(["set", npath, "1"])
+        except SystemExit as e:
+            rc = e.code if isinstance(e.code, int) else 1
+        except Exception:
+            rc = 1
+        finally:
+            sys.stdin = old_stdin
+        got = (0 if rc == 0 else "nonzero", out.getvalue())
+        if got != want:
+            bad.append(f"cli-edits-another-path-than-the-one-given|{doc}")
+    return bad
+
+
+SPELLINGS = [
+    # (what the file says, path segment, decoded name)
+    ("a", '"a"', "a"), ('"a"', "a", "a"), ("foo-bar", '"foo-bar"', "foo-bar"), ("a'", '"a\'"', "a'"), ('"_x1"', "_x1", "_x1"), ("x1", '"x1"', "x1"),
+]
+
+
+def spelling_case(item):
+    """Spellings that Nix reads as the same name denote one attribute: an edit never creates a second definition."""
+    from nix_manipulator import parse
+    from nix_manipulator.cli.manipulations import remove_value, set_value
+
+    in_file, seg, name = item
+    text = "{\n  " + in_file + " = 0;\n  k = 0;\n}\n"
+    bad = []
+    try:
+        out = set_value(parse(text), seg, "1")
+        try:
+            err, tree, _ = RD.read_document(out)
+            if err or tree is None:
+                bad.append("output-does-not-parse")
+            elif tree.get(name) != "1":
+                bad.append("set-through-the-other-spelling-does-not-update-the-attribute")
+        except RD.Dup:
+            bad.append("set-through-the-other-spelling-creates-a-second-definition")
+    except Exception as e:
+        bad.append(f"set-through-the-other-spelling-refused:{type(e).__name__}")
+    try:
+        out = remove_value(parse(text), seg)
+        err, tree, _ = RD.read_document(out)
+        if not err and tree is not None and name in tree:
+            bad.append("rm-through-the-other-spelling-leaves-the-attribute")
+    except Exception as e:
+        bad.append(f"rm-through-the-other-spelling-refused:{type(e).__name__}")
+    return bad
+
+
 def run(tier, seed):
     t0 = time.time()
     nm = list(names(tier))
     items = [(d, n, s) for n in nm for d, s in (("plain", "single"), ("attrpath-family", "under-x"), ("plain", "parent"), ("let-layer", "single"),
                                                           ("plain", "quoted-pair"), ("quoted-family", "under-quoted-root"))]
+    cli_names = [n for n in nm if len(n) <= 2] + EXTRA + UNICODE_NAMES
     with mp.get_context("fork").Pool(16) as pool:
         res = pool.map(eval_case, items, chunksize=256)
+        cres = pool.map(cli_case, cli_names, chunksize=16)
+        sres = pool.map(spelling_case, SPELLINGS, chunksize=1)
     vio = {}
+    for it_, bad in zip(SPELLINGS, sres):
+        for b in bad:
+            kind = "file spells the name quoted, path bare" if it_[0].startswith('"') else "file spells the name bare, path quoted"
+            sig = f"{b}|{kind}"
+            vio.setdefault(sig, dict(check="names-spelling", signature=sig, what=f"C12 {b}: file has `{it_[0]} = 0;`, path segment {it_[1]}", has_input=True,
+                                     inputs={"spelling": list(it_)}, failing_input={"inputs": {"text": "{\n  " + it_[0] + " = 0;\n  k = 0;\n}\n", "path": it_[1]}, "observed": b, "origin": "bounded enumeration"}))
+    for n_, bad in zip(cli_names, cres):
+        for b in bad:
+            sig = f"{b}|name={n_!r}"
+            vio[sig] = dict(check="names-cli", signature=sig, what=f"C12 {b}: attribute name {n_!r} through `nima set`", has_input=True,
+                            inputs={"cli_name": n_}, failing_input={"inputs": {"name": n_, "argv": ["set", segment(n_), "1"]}, "observed": b, "origin": "bounded enumeration"})
     for it, sym in zip(items, res):
         if not sym:
             continue
@@ -150,8 +239,8 @@ def run(tier, seed):
             vio[sig] = dict(check="names", signature=sig, what=f"C12 {sym}: attribute name {it[1]!r} ({it[2]} on {it[0]})", has_input=True,
                             inputs={"doc": it[0], "name": it[1], "shape": it[2]},
                             failing_input={"inputs": {"text": DOCS[it[0]], "name": it[1], "shape": it[2]}, "observed": sym, "origin": "bounded enumeration"})
-    return dict(evaluations=len(items), distinct_nontrivial=len(items),
-                rule=(f"every string over {len(ALPHABET)} critical characters up to length {4 if tier == 'quick' else 5} (length >= 4: containing one of "
+    return dict(evaluations=len(items) + 2 * len(cli_names), distinct_nontrivial=len(items) + 2 * len(cli_names),
+                rule=(f"(plus {len(cli_names)} names incl. non-NFC / compatibility / blank-edged ones through the in-process CLI vs the library) every string over {len(ALPHABET)} critical characters up to length {4 if tier == 'quick' else 5} (length >= 4: containing one of "
                       "$ { } \\ \" .) plus keywords / unicode / control characters as attribute name, as a single segment, under an attrpath family "
                       "(plain and with a quoted, dotted root), as the parent of a deeper path (plain and quoted), in a set and in a let layer: set, set again, rm; names decoded from the output CST by the "
                       "independent Nix string decoder"),
@@ -161,6 +250,20 @@ def run(tier, seed):
 
 def replay(v):
     i = v["inputs"]
+    if "spelling" in i:
+        bad = spelling_case(tuple(i["spelling"]))
+        print(i, "->", bad)
+        if bad:
+            print("VIOLATION property=C12 replay=<given>")
+            return 1
+        return 0
+    if "cli_name" in i:
+        bad = cli_case(i["cli_name"])
+        print(i, "->", bad)
+        if bad:
+            print("VIOLATION property=C12 replay=<given>")
+            return 1
+        return 0
     sym = eval_case((i["doc"], i["name"], i["shape"]))
     print(i, "->", sym)
     if sym:
